@@ -1,10 +1,12 @@
 from vlib.core import Check, Family
+from vlib.gentie import gentie_step_all   # hot-start theorems are about the hand-written kernel models: every regenerated tie is an obligation here
 from checks.models import STATEFUL_MODELS, TOL_BY_MODEL, EXTRA_ARGS
 
 CHECK = Check(
     "C06",
     props_modules=["OW.Props.C06", "OW.Props.C06Laws"],
     families=[Family("KSPLIT", rtol=1e-9, atol_scale=1e-12, tol_by_model=TOL_BY_MODEL, args=["models=" + ",".join(STATEFUL_MODELS), "n=80"] + EXTRA_ARGS)],
+    pre_steps=[gentie_step_all],
     level="proof",
     trusted=[
         "hand-written Lean kernel models OW/Kernels/* (state = exactly what the Go kernel loads from / stores to the state row, incl. "
